@@ -2,6 +2,6 @@
 from checks import e3check
 
 QUICK = ['ctr_dec2_wait_R3', 'ctr_dec2_timed_R3']
-THOROUGH = ['ctr_dec_dec_wait_R3', 'ctr_dec_dec_timed_R3', 'ctr_dec_dec_reader_R3', 'ctr_dec_dec_late_R3', 'ctr_dec_dec_wait_R4']
+THOROUGH = ['ctr_passive_timed_dec_R3', 'ctr_dec_dec_wait_R3', 'ctr_dec_dec_timed_R3', 'ctr_dec_dec_reader_R3', 'ctr_dec_dec_late_R3', 'ctr_dec_dec_wait_R4']
 scenarios, jobs, confirm, info = e3check.make('C10', QUICK, THOROUGH, 'harness/e3/counter_basic.c: counter starts at 2, two decrementers (results must be 1 and 0), a waiter (wait returns 0 only with value 0; non-zero only after its deadline), a reader (values only decrease), a late waiter (does not block after zero). Waiters present at zero must be released (deadlock oracle).', ['nsync_counter_new', 'nsync_counter_add', 'nsync_counter_value', 'nsync_counter_wait', 'counter_enqueue', 'counter_dequeue', 'counter_ready_time', 'nsync_wait_n'], ['increments; more than one waiter'])
 WORKERS = 5     # each query needs 2-10 GB (cbmc + kissat): bounded parallelism keeps the machine out of swap / the OOM killer
